@@ -147,6 +147,21 @@ Wave 3 (loops; groups `line` `fold` `text` -> Gen/BodiesLine.lean, BodiesFold.le
                date / timedelta variable: the operands after it see the object; operands that can raise are placed by
                nested `if`s.  A translated method that returns a tuple display: `m()[k]` and `a, b, c = m()`.
                `d1 - d2` of date / datetime objects is an external partial operation ('datetime.__sub__').
+  wave 6       UNION types (`U:<Name>`, table UNIONS): a value that is one of several kinds of object (`PyDDD`: date | datetime |
+               time | timedelta | a pair; one-or-many: an object or a list of them).  `isinstance(x, C)` on such a variable is a
+               `match`: in the branch where the test holds (and, with two members, in the other one) x IS the member; tests
+               already decided are dropped with a note; a function declared to return the union wraps what it returns; a
+               variable declared (locals) to hold a union is brought to it where paths meet; a member is accepted where an
+               external takes the union.  `Cls(x).m()` for a translated m that reads `self.<attr>`: the constructor must store
+               its argument there unchanged and may otherwise only guard its type (noted).  `Cls.m(..)` / `cls.m(..)` of a
+               translated classmethod / staticmethod: value parameters of the callee that stand for `REGEX.match(arg)` or
+               `f(arg)` become FUNCTION parameters of the caller.  Two functions that call each other are each translated
+               with the other as a parameter (the knot is tied, and justified, in the Pieces file).
+               `s.startswith((..literals..))`, `s.lower()`, `'c' in s`, `n in (1, 2)`, `x in [..literals..]`, `a, b = xs`
+               (ValueError unless two elements), `obj[k] = v` and `obj[k]` on a declared opaque object (setter / partial
+               getter), self_type 'State:S' (the method returns the state it leaves), a `try` whose body ends in `return`,
+               `continue` / `break` of an inner loop inside a `try`, `continue` in a handler, `sep.join(E for v in xs)` over
+               objects, `for k, v in <pairs>` with k, v rebound in the iteration, SEQUENCE_TYPES checked to be (list, tuple).
   parameters   the order of the generated parameters follows their first use in the source: apply the definitions BY NAME
                (`f (last_ack := ..) (snooze_until := ..)`), never positionally - two parameters of one type could
                otherwise change places together with the source and no proof or test would notice.
@@ -172,7 +187,7 @@ LEAN_TYPE = {'Int': 'Int', 'Str': 'Str', 'Bytes': 'Str', 'Bool': 'Bool', 'TD': '
              'PyDate': 'PyDate', 'PyDateTime': 'PyDateTime', 'PyTime': 'PyTime', 'None': 'Unit', 'StrList': 'List Str',
              'Truth': 'Bool', 'Char': 'Char', 'OptInt': 'Option Int', 'Builder': 'Str', 'IntList': 'List Int',
              'Unbound:Int': 'Option Int', 'D': 'Trig', 'OptD': 'Option Trig', 'TDS': 'Int', 'OptTDS': 'Option Int', 'DList': 'List Trig',
-             'ATList': 'List AT', 'Comp': 'Comp', 'CompList': 'List Comp', 'Fn:Comp:Bool': 'Comp → Bool', 'Object': 'Unit', 'U:PyDDD': 'PyDDD', 'U:RVals': 'PyOneMany RV', 'IV': 'PyIV', 'Vals': 'PyVals', 'Val': 'Val', 'ValList': 'List Val',
+             'ATList': 'List AT', 'Comp': 'Comp', 'CompList': 'List Comp', 'Fn:Comp:Bool': 'Comp → Bool', 'Object': 'Unit', 'U:PyDDD': 'PyDDD', 'U:RVals': 'PyOneMany RV', 'U:ArgU': 'PyOneMany PV', 'U:StoredU': 'PyOneMany OV', 'IV': 'PyIV', 'Vals': 'PyVals', 'Val': 'Val', 'ValList': 'List Val',
              'Store': 'CDict.Store V', 'StepOut': 'CDict.Store V × CDict.Out V', 'V': 'V', 'OptV': 'Option V', 'Msg': 'Unit', 'ExcVal': 'Exc', 'Item': 'PyItem', 'ItemList': 'List PyItem', 'EntryList': 'List Entry'}
 
 
@@ -347,6 +362,18 @@ TARGETS = [
             'typ(val).to_ical()': ('pexpr', 'part_to', ['typ', 'val'], 'Bytes'),
             'from_unicode': ('fun', 'from_unicode', ['Bytes'], 'Bytes')}, False, 'recur', None, None, 'Bytes',
            {'result': 'List:Bytes'}),
+    # ---- Component.add (C02).  `self` is an opaque mapping state `S` (self_type 'State:S'): `name in self`, `self[name]`,
+    # `self[name] = value` are parameters and the function returns the state it leaves.  The argument is one Python value
+    # or a list of them (`ArgU`), what is stored is one value object or a list (`StoredU`); `self._encode`,
+    # `isinstance(value, datetime)`, `tzp.localize_utc` are parameters
+    Target('cal.py', 'Component', 'add', 'Component_add', 'State:S', {},
+           {'isinstance(value, datetime)': ('expr', 'is_datetime', ['value'], 'Bool'),
+            'tzp.localize_utc': ('fun', 'localize_utc', ['U:ArgU'], 'U:ArgU'),
+            'self._encode': ('pfun', 'encode_value', ['Str', 'U:ArgU', 'PD', 'Int'], 'OV', {}),
+            'in self': ('contains', 'has_key', 'S'),
+            'self[]': ('pgetitem', 'get_item', 'Str', 'U:StoredU'),
+            'self[]=': ('setitem', 'set_item', 'Str', 'U:StoredU')}, False, 'add',
+           {'name': 'Str', 'value': 'U:ArgU', 'parameters': 'PD', 'encode': 'Int'}, None, 'S', {'value': 'U:StoredU'}),
     # ---- parser helpers
     Target('parser.py', None, 'dquote', 'dquote', None, {}, {'QUOTABLE.search': ('pred', 'quotable_search')}, False,
            'parser', {'val': 'Str'}),
@@ -524,7 +551,9 @@ class Widen(Exception):
 
 
 # union types `U:<Name>`: member type -> constructor; (Python classes an instance test names -> the constructors it accepts)
-UNIONS = {'RVals': {'members': {'RV': 'one', 'List:RV': 'many'}, 'lean': 'PyOneMany RV',
+UNIONS = {'ArgU': {'members': {'PV': 'one', 'List:PV': 'many'}, 'lean': 'PyOneMany PV', 'classes': {'list': ['many']}},
+          'StoredU': {'members': {'OV': 'one', 'List:OV': 'many'}, 'lean': 'PyOneMany OV', 'classes': {'list': ['many']}},
+          'RVals': {'members': {'RV': 'one', 'List:RV': 'many'}, 'lean': 'PyOneMany RV',
                     # SEQUENCE_TYPES of parser_tools.py must be (list, tuple): looked up on every run
                     'classes': {'SEQUENCE_TYPES': ['many']}},
           'PyDDD': {'members': {'PyDate': 'date', 'PyDateTime': 'dt', 'PyTime': 'time', 'TD': 'dur'},
@@ -542,14 +571,15 @@ def to_union(v, want):
     u = UNIONS.get(want[2:]) if want.startswith('U:') else None
     if u is None:
         return None
+    head = u.get('lean', want[2:]).split()[0]
     if v.type in u['members']:
-        return V(f'({want[2:]}.{u["members"][v.type]} {v.lean})', want, None)
+        return V(f'({head}.{u["members"][v.type]} {v.lean})', want, None)
     if v.type == 'Tuple' and len(v.elts) == 2 and 'pair' in u:
         a, b = (x if x.type == want else to_union(x, want) for x in v.elts)
         if a is not None and b is not None:
-            return V(f'({want[2:]}.{u["pair"]} {a.lean} {b.lean})', want, None)
+            return V(f'({head}.{u["pair"]} {a.lean} {b.lean})', want, None)
     if v.type == f'Tuple:{want[2:]} × {want[2:]}' and 'pair' in u:
-        return V(f'({want[2:]}.{u["pair"]} {v.lean}.1 {v.lean}.2)', want, None)
+        return V(f'({head}.{u["pair"]} {v.lean}.1 {v.lean}.2)', want, None)
     return None
 
 
@@ -930,6 +960,13 @@ class Fn:
                 self.fail(node, f'self[..] with a key of type {k.type}')
             f = self.param(e[1], f'Comp → Str → Py {lean_type(e[2])}')     # CaselessDict.__getitem__: external, may raise
             return self.hoist(node, f"{f.lean} (Comp.mk name' props' subs') {k.lean}", e[2])
+        if isinstance(node.value, ast.Name) and node.value.id in env and not isinstance(node.slice, ast.Slice) \
+                and self.t.externals.get(node.value.id + '[]', ('',))[0] == 'pgetitem':
+            e, obj, k = self.t.externals[node.value.id + '[]'], env[node.value.id], self.expr(node.slice, env)
+            if k.type != e[2]:
+                self.fail(node, f'`{ast.unparse(node)[:40]}`: key of type {k.type}, declared {e[2]}')
+            f = self.param(e[1], f'{lean_type(obj.type)} → {lean_type(e[2])} → Py {"(" + lean_type(e[3]) + ")" if " " in lean_type(e[3]) else lean_type(e[3])}')
+            return self.hoist(node, f'{f.lean} {obj.lean} {k.lean}', e[3])      # KeyError when the key is missing
         v, sl = self.expr(node.value, env), node.slice
         if v.type == 'Tuple' and isinstance(sl, ast.Constant) and type(sl.value) is int and 0 <= sl.value < len(v.elts):
             return v.elts[sl.value]     # a component of a tuple display
@@ -969,6 +1006,8 @@ class Fn:
             self.fail(node, '`self` of a dict method outside `super().<m>(..)`')
         if node.id == 'self' and self.objself:
             return V("(Comp.mk name' props' subs')", 'Comp', None)
+        if node.id == 'self' and 'self' in env:
+            return env['self']
         if node.id == 'self':
             if self.t.self_type is None:
                 self.fail(node, '`self` used as a value')
@@ -1161,6 +1200,8 @@ class Fn:
         if k in ('In', 'NotIn') and a.type == 'Int' and b.type == 'Tuple' and b.elts and all(e.type == 'Int' for e in b.elts):
             lst = '([' + ', '.join(e.lean for e in b.elts) + '] : List Int)'
             return V(f'({neg}{lst}.contains {a.lean})', 'Bool', None)
+        if a.type == 'Str' and b.type == 'StrList' and k in ('In', 'NotIn') and isinstance(node.comparators[0], ast.List):
+            return V(f'({"" if k == "In" else "!"}{b.lean}.contains {a.lean})', 'Bool', None)
         if a.type == 'Str' and b.type == 'Tuple' and k in ('In', 'NotIn') and all(e.lits is not None for e in b.elts):
             lst = '([' + ', '.join(e.lean for e in b.elts) + '] : List Str)'
             return V(f'({"" if k == "In" else "!"}{lst}.contains {a.lean})', 'Bool', None)
@@ -1554,6 +1595,10 @@ class Fn:
             x = self.expr(fn.value, env)
             if x.type == 'Str' and lits and all(isinstance(l, ast.Constant) and isinstance(l.value, str) for l in lits):
                 return V('(' + ' || '.join(f'startsWith {x.lean} {X.lstr(l.value)}' for l in lits) + ')', 'Bool', None)
+        if isinstance(fn, ast.Attribute) and fn.attr == 'lower' and not node.args and not node.keywords:
+            x = self.expr(fn.value, env)
+            if x.type == 'Str':     # ASCII lower-casing (the models' convention; Python's is Unicode)
+                return V(f'(lower {x.lean})', 'Str', None)
         if isinstance(fn, ast.Attribute) and fn.attr == 'upper' and not node.args and not node.keywords:
             x = self.expr(fn.value, env)
             if x.type == 'Str':     # ASCII upper-casing (the models' convention; Python's is Unicode)
@@ -1640,6 +1685,7 @@ class Fn:
                 self.fail(node, f'external call {callee}: keyword arguments differ from the declared {list(kws)}')
             args = self.call_args(node, env) + [self.expr(k.value, env) for k in node.keywords]
             want = ext[2] + list(kws.values())
+            args = [(to_union(a, w) or a) if w.startswith('U:') and a.type != w else a for a, w in zip(args, want)] if len(args) == len(want) else args
             if [a.type for a in args] != want:
                 self.fail(node, f'external call {callee}: argument types {[a.type for a in args]}, declared {want}')
             rt = 'None' if ext[0] == 'proc' else ext[3]
@@ -1991,6 +2037,12 @@ class Fn:
             return self.take_pre() + [f"let out' : List Trig := (out' ++ [{v.lean}])"] + self.block(rest, env, tail)
         if isinstance(s, ast.Expr) and is_append(s.value):
             name = s.value.func.value.id
+            if name in env and env[name].lean in self.narrow and self.narrow[env[name].lean].type.startswith('List:') and s.value.func.attr == 'append':
+                lst, v = self.narrow[env[name].lean], self.expr(s.value.args[0], env)      # a value of a union known to be a list
+                if v.type != lst.type[5:]:
+                    self.fail(s, f'append of a {v.type} to a {lst.type}')
+                env, line = self.bind(env, name, V(f'({lst.lean} ++ [{v.lean}])', lst.type, None))
+                return self.take_pre() + [line] + self.block(rest, env, tail)
             if name not in env or not (env[name].type in ('Builder', 'StrList', 'CompList', 'ItemList') or env[name].type.startswith('List:')):
                 self.fail(s, f'`{name}.append(..)` on something that is not a local list')
             x, v = env[name], self.expr(s.value.args[0], env)
@@ -2037,6 +2089,8 @@ class Fn:
             v = self.expr(s.value, env)      # the right side first, then the key
             k = self.expr(s.targets[0].slice, env)
             obj = env[name]
+            if e[3].startswith('U:') and v.type != e[3]:
+                v = to_union(self.narrow.get(v.lean, v), e[3]) or v
             if (k.type, v.type) != (e[2], e[3]) or obj.elts is not None:
                 self.fail(s, f'`{ast.unparse(s)[:50]}`: key {k.type}, value {v.type}; declared {e[2]}, {e[3]}')
             f = self.param(e[1], f'{lean_type(obj.type)} → {lean_type(e[2])} → {lean_type(e[3])} → {lean_type(obj.type)}')
@@ -2331,6 +2385,16 @@ class Fn:
             lines.append(line)
         return lines + self.block(rest, env, tail)
 
+    def as_declared(self, name, v):
+        """a variable declared (locals) to hold a union, at a point where paths meet: its value as a value of the union"""
+        want = (self.t.locals or {}).get(name)
+        if want is not None and want.startswith('U:') and v.type != want:
+            x = self.narrow.get(v.lean, v)
+            w = to_union(x, want)
+            if w is not None:
+                return w
+        return v
+
     def union_test(self, node, env):
         """`isinstance(x, C)` / `isinstance(x, (C1, C2))` on a variable of a union type that is not yet known to be of one
         member: (the variable, the constructors still possible that the test accepts, those still possible)"""
@@ -2339,7 +2403,8 @@ class Fn:
                 and isinstance(node.args[0], ast.Name) and node.args[0].id in env):
             return None
         x = env[node.args[0].id]
-        if not x.type.startswith('U:') or x.lean in self.narrow or not re.fullmatch(r"[A-Za-z_][\w']*", x.lean):
+        if not x.type.startswith('U:') or x.lean in self.narrow or not re.fullmatch(r"[A-Za-z_][\w']*", x.lean) \
+                or ast.unparse(node) in self.t.externals:
             return None
         u = UNIONS[x.type[2:]]
         names = node.args[1].elts if isinstance(node.args[1], ast.Tuple) else [node.args[1]]
@@ -2352,7 +2417,10 @@ class Fn:
                 val = X.find_assign(pt.body, 'SEQUENCE_TYPES')
                 if self.modnames.get(n.id) != 'icalendar.parser_tools.SEQUENCE_TYPES' or val is None or ast.unparse(val) != '(list, tuple)':
                     self.fail(node, 'SEQUENCE_TYPES is not `(list, tuple)` of icalendar.parser_tools')
-            elif n.id != 'tuple' and self.modnames.get(n.id) != 'datetime.' + n.id:
+            elif n.id in ('list', 'tuple'):
+                if n.id in self.modnames or n.id in env:
+                    self.fail(node, f'`{n.id}` is rebound')
+            elif self.modnames.get(n.id) != 'datetime.' + n.id:
                 self.fail(node, f'`{n.id}` is not the class of the datetime module')
             acc += [c for c in u['classes'][n.id] if c not in acc]
         allc = list(u['members'].values()) + ([u['pair']] if 'pair' in u else [])
@@ -2366,7 +2434,7 @@ class Fn:
         return f'.{ctor} {v}', V(v, next(t for t, c in u['members'].items() if c == ctor), None)
 
     def if_(self, s, rest, env, tail):
-        if isinstance(s.test, ast.BoolOp) and isinstance(s.test.op, ast.And) and self.union_test(s.test.values[0], env) is not None:
+        if isinstance(s.test, ast.BoolOp) and isinstance(s.test.op, ast.And) and any(self.union_test(v, env) is not None for v in s.test.values):
             # `isinstance(x, C) and B`: B is evaluated knowing what x is
             vals = s.test.values
             second = vals[1] if len(vals) == 2 else ast.copy_location(ast.BoolOp(op=ast.And(), values=vals[1:]), s.test)
@@ -2483,8 +2551,9 @@ class Fn:
                 for n in merged:
                     if n not in e:
                         self.fail(s, f'`{n}` is read later but bound on one path only')
-                store.append([e[n] for n in merged])
-                return ['«T»(' + ', '.join(e[n].lean for n in merged) + ')'] if merged else ['«T»()']
+                vals = [self.as_declared(n, e[n]) for n in merged]
+                store.append(vals)
+                return ['«T»(' + ', '.join(v.lean for v in vals) + ')'] if merged else ['«T»()']
             return make
         self.fresh += 1
         m = f"m{self.fresh}'"
@@ -2681,7 +2750,7 @@ class Fn:
             if re.fullmatch(r"[A-Za-z_][\w']*", n) and n not in inner and word(n) and n not in [c[0] for c in caps]:
                 caps.append((n, typ))
         capsig = ('«EXTSIG»' if self.objself else '') + ''.join(f' ({n} : {lean_type(t)})' for n, t in caps)
-        if self.t.group in ('parse', 'alarm', 'recur'):     # the opaque types the loop mentions
+        if self.t.group in ('parse', 'alarm', 'recur', 'add'):     # the opaque types the loop mentions
             ops = opaque_types([lean_type(t) for _, t in caps] + [lean_type(slots[n]) for n in state]
                                + ([lean_type(itv.type)] if itv is not None else []))
             capsig = ''.join(f' {{{o} : Type}}' for o in ops) + capsig
@@ -2862,6 +2931,8 @@ class Fn:
             self.parent = {c: p for p in ast.walk(self.func) for c in ast.iter_child_nodes(p)}
             for f in self.fields:
                 FIELD_LNAME['self__' + f] = t.self_attrs[f][0]
+        if (t.self_type or '').startswith('State:'):     # the object itself is a value that the method changes and leaves
+            env['self'] = self.param('self_', t.self_type[6:])
         for n, typ in (t.args or {}).items():
             if typ == 'Object':     # an object that is only used through attributes declared as parameters
                 continue
@@ -2880,6 +2951,9 @@ class Fn:
         gen = any(isinstance(n, (ast.Yield, ast.YieldFrom)) for n in ast.walk(self.func))
 
         def off_end(e):
+            if (t.self_type or '').startswith('State:'):      # returns None: the state it leaves
+                self.rtype = t.self_type[6:]
+                return [self.ret(e['self'].lean)]
             if self.fields is not None:       # a method that returns None: what it leaves in the attributes it writes
                 return self.fields_out(e)
             if gen:     # a generator that is exhausted: the list of what it yielded
@@ -2890,7 +2964,7 @@ class Fn:
             if any(isinstance(n, (ast.Return, ast.YieldFrom)) for n in ast.walk(self.func)):
                 self.fail(self.func, 'generator with `return` / `yield from`')
             env["out'"] = V("out'", 'DList', None)
-        top = Tail(["out'"] if gen else ['self__' + f for f in (self.fields or [])], off_end)
+        top = Tail(["out'"] if gen else ['self'] if (t.self_type or '').startswith('State:') else ['self__' + f for f in (self.fields or [])], off_end)
         saved = list(self.used)
         try:
             return self.block(self.func.body, env, top)
@@ -3033,6 +3107,14 @@ HEADERS['parse'] = ['/- GENERATED by tools/py2lean.py (called from tools/extract
                     '   is a parameter.  `component = stack[-1] if stack else None` is an alias of the top of the stack. -/',
                     'import ICal.Model.PyRT', 'set_option linter.unusedVariables false',
                     'namespace ICal.Gen.BodiesParse', 'open ICal ICal.PyRT', '']
+NAMESPACE['add'] = 'ICal.Gen.BodiesAdd'
+HEADERS['add'] = ['/- GENERATED by tools/py2lean.py (called from tools/extract.py) from Component.add of src/icalendar/cal.py.',
+                  '   Do not edit: regenerated on every run; lean/ICal/Lemmas/BodiesAdd.lean proves it equal to the hand-written model',
+                  '   (ICal/Model/Encode.lean: `addProp`).  The mapping `self` is an opaque state: what is asked of it and done to it is a',
+                  '   parameter, the function returns the state it leaves.  The argument and what is stored are one object or a list',
+                  '   (`PyOneMany`); `isinstance(x, list)` tells which and the value is used accordingly from there on. -/',
+                  'import ICal.Model.PyRTDec', 'set_option linter.unusedVariables false',
+                  'namespace ICal.Gen.BodiesAdd', 'open ICal ICal.PyRT', '']
 NAMESPACE['recur'] = 'ICal.Gen.BodiesRecur'
 HEADERS['recur'] = ['/- GENERATED by tools/py2lean.py (called from tools/extract.py) from vRecur.parse_type / from_ical / to_ical of',
                     '   src/icalendar/prop.py. Do not edit: regenerated on every run; lean/ICal/Lemmas/BodiesRecur.lean proves each equal',
@@ -3165,7 +3247,7 @@ def translate(src_dir, group='enc'):
         sig = ''.join(f' ({p} : {lean_type(ty)})' for p, ty in fn.used)
         opaque = sorted({e[3] for e in t.externals.values() if isinstance(e[0], str) and e[0] in ('pfun', 'expr') and e[3] not in LEAN_TYPE and e[3] != 'Object' and ':' not in e[3]})
         opaque = sorted(set(opaque) | {o for o in ('AT',) if re.search(r'\b' + o + r'\b', sig)})
-        if group in ('parse', 'alarm', 'recur'):
+        if group in ('parse', 'alarm', 'recur', 'add'):
             opaque = opaque_types([lean_type(ty) for _, ty in fn.used] + [fn.rtype_lean or lean_type(fn.rtype)])
         sig = ''.join(f' {{{o} : Type}}' for o in opaque) + sig
         rt = fn.rtype_lean or lean_type(fn.rtype)
